@@ -19,17 +19,20 @@ pkgdir() { # map a test file to its package directory
     *) echo "";;
   esac
 }
-run_demo() { # runs demo tests in $WT, prints PASS/FAIL
-  local res=PASS
+run_demo() { # copies all demo test files, runs their tests per package, prints PASS/FAIL
+  local res=PASS dirs="" copied=""
   for t in $SRC/*_test.go; do
     [ -f "$t" ] || continue
     local d=$(pkgdir "$t"); [ -n "$d" ] || { echo "UNKNOWNPKG"; return; }
-    cp "$t" $WT/$d/
-    local names=$(grep -o '^func Test[A-Za-z0-9_]*' "$t" | sed 's/func //' | paste -sd'|')
-    local flags=""; grep -q -i 'race' $SRC/meta.json 2>/dev/null && flags="-race"
-    (cd $WT && timeout 600 go test $flags -vet=off -count=1 -run "^($names)\$" ./$d/ >/tmp/demo-$ID.log 2>&1) || res=FAIL
-    rm -f $WT/$d/$(basename $t)
+    cp "$t" $WT/$d/; copied="$copied $WT/$d/$(basename $t)"
+    case " $dirs " in *" $d "*) ;; *) dirs="$dirs $d";; esac
   done
+  local flags=""; grep -q -i '"-race\|go test -race\| -race ' $SRC/meta.json 2>/dev/null && flags="-race"
+  for d in $dirs; do
+    local names=$(cat $SRC/*_test.go | grep -o '^func Test[A-Za-z0-9_]*' | sed 's/func //' | paste -sd'|')
+    (cd $WT && timeout 900 go test $flags -vet=off -count=1 -run "^($names)\$" ./$d/ >/tmp/demo-$ID.log 2>&1) || res=FAIL
+  done
+  rm -f $copied
   echo $res
 }
 cd $WT
